@@ -15,11 +15,15 @@ import (
 // source: 随机源
 // n: 读取字节数
 // round: 检测方式
+// lock: 读取随机源的互斥锁
 // counter: 结果集统计
-func worker(jobs chan int, source io.Reader, n int, round func([]byte) []*randomness.TestResult, counter []int32, distributions [][]float64, wait *sync.WaitGroup) {
+func worker(jobs chan int, source io.Reader, lock *sync.Mutex, n int, round func([]byte) []*randomness.TestResult, counter []int32, distributions [][]float64, wait *sync.WaitGroup) {
 	buf := make([]byte, n, n*2)
 	for i := range jobs {
-		_, err := source.Read(buf)
+		// 一个样本必须由连续的 n 字节组成：加锁并读满，防止短读或多个worker交错读取
+		lock.Lock()
+		_, err := io.ReadFull(source, buf)
+		lock.Unlock()
 		if err != nil {
 			continue
 		}
@@ -38,9 +42,10 @@ func worker(jobs chan int, source io.Reader, n int, round func([]byte) []*random
 // return 控制命令管道, 结束型号器
 func bootWorker(source io.Reader, n int, round func([]byte) []*randomness.TestResult, counter []int32, distributions [][]float64) (chan int, *sync.WaitGroup) {
 	var wait sync.WaitGroup
+	var lock sync.Mutex
 	jobs := make(chan int)
 	for i := 0; i < runtime.NumCPU(); i++ {
-		go worker(jobs, source, n, round, counter, distributions, &wait)
+		go worker(jobs, source, &lock, n, round, counter, distributions, &wait)
 	}
 	return jobs, &wait
 }
